@@ -23,7 +23,7 @@ use std::collections::{BTreeMap, BTreeSet, HashMap};
 use std::panic::{catch_unwind, AssertUnwindSafe};
 use std::sync::Arc;
 
-type Env = (Option<EntityUID>, Option<EntityUID>);
+pub type Env = (Option<EntityUID>, Option<EntityUID>);
 
 #[derive(Clone, Debug)]
 pub enum Op {
@@ -111,7 +111,7 @@ pub fn template_sx(t: &ast::Template) -> Option<String> {
     Some(o)
 }
 
-fn env_sx(env: &Env) -> String {
+pub fn env_sx(env: &Env) -> String {
     let mut o = String::from("(env");
     if let Some(u) = &env.0 { o.push_str(&format!(" (principal {})", sx::uid(u))); }
     if let Some(u) = &env.1 { o.push_str(&format!(" (resource {})", sx::uid(u))); }
@@ -297,12 +297,15 @@ fn api_env(env: &Env) -> HashMap<api::SlotId, api::EntityUid> {
     m
 }
 
-fn api_err(e: api::PolicySetError) -> String {
+fn api_err(e: api::PolicySetError) -> String { api_err_ref(&e) }
+
+/// error class of a `PolicySetError` (the driver's `encErrKind` names)
+pub fn api_err_ref(e: &api::PolicySetError) -> String {
     use api::PolicySetError as E;
     match e {
         E::AlreadyDefined(_) => "alreadyDefined".into(),
         E::Linking(l) => {
-            let s = std::error::Error::source(&l).map(|e| e.to_string()).unwrap_or_else(|| format!("{l:?}"));
+            let s = std::error::Error::source(l).map(|e| e.to_string()).unwrap_or_else(|| format!("{l:?}"));
             if s.contains("failed to find a template") { "noSuchTemplate".into() }
             else if s.contains("conflicts with an existing policy id") { "idConflict".into() }
             else { "arity".into() }
@@ -404,7 +407,7 @@ struct Oracle {
     off: bool,
 }
 
-fn slots_of(text: &str) -> (bool, bool) { (text.contains("?principal"), text.contains("?resource")) }
+pub fn slots_of(text: &str) -> (bool, bool) { (text.contains("?principal"), text.contains("?resource")) }
 
 impl Oracle {
     /// predicted outcome (true = ok) and the state update
@@ -647,9 +650,9 @@ fn op_name(op: &Op) -> &'static str {
 
 const IDS: &[&str] = &["a", "b", "t", "policy0", "policy1"];
 
-struct Pool { statics: Vec<String>, templates: Vec<String> }
+pub struct Pool { pub statics: Vec<String>, pub templates: Vec<String> }
 
-fn gen_pool(r: &mut Rng, g: &mut ExprGen, w: &World, api: bool) -> Pool {
+pub fn gen_pool(r: &mut Rng, g: &mut ExprGen, w: &World, api: bool) -> Pool {
     let anno = |r: &mut Rng, t: String| -> String { match r.below(4) { 0 => format!("@note(\"x\") {t}"), 1 => format!("@note(\"y\") @k(\"\") {t}"), _ => t } };
     let mut statics = Vec::new();
     while statics.len() < 3 {
